@@ -59,6 +59,24 @@ def generate(rng, tier):
         cases.append(Case("sum.ops", h2, meta={"group": g, "h": 2, "nt": nt}))
         t = sgen.print_entry(e)
         cases.append(Case("sum.parse", [enc(t)], meta={"group": g, "text": t, "nt": nt}))
+        # canonical text, decided on the text alone (C07_canonical_text_round_trip / C07_printed_is_canonical): the printed
+        # form and one-edit neighbours of it - the model's syntactic predicate must agree with "parses and prints back"
+        if g < (120 if tier == "quick" else 3000):
+            ls = t.split("\n")[:-1]
+            i, j = rng.randrange(len(ls)), rng.randrange(len(ls))
+            def with_size(fn):
+                return "".join((fn(l) if l.startswith("SIZE_PKG=") or l.startswith("FILE_SIZE=") else l) + "\n" for l in ls)
+            muts = [t, t[:-1], t + "\n", t.replace("\n", "\r\n"), "".join(l + "\n" for l in ls[:i] + ls[i + 1:]),
+                    "".join(l + "\n" for l in ls[:i] + [ls[i]] + ls[i:]), "".join(l + "\n" for l in ls[:i] + [ls[j]] + ls[i:]),
+                    "".join(l + "\n" for l in reversed(ls)), "".join(l + "\n" for l in sorted(ls)),
+                    "".join((l + ("\rx" if k == i else "")) + "\n" for k, l in enumerate(ls)),
+                    "".join((l + ("\r" if k == i else "")) + "\n" for k, l in enumerate(ls)),
+                    "".join((l[:len(l) // 2] + "\r" + l[len(l) // 2:] if k == i else l) + "\n" for k, l in enumerate(ls)),
+                    with_size(lambda l: l.replace("=", "=+", 1)), with_size(lambda l: l.replace("=", "=0", 1)), with_size(lambda l: l.replace("=", "=-0", 1) if l.endswith("=0") else l + "0"),
+                    with_size(lambda l: l + " "), "\n" + t, " " + t, t.lower(), "".join(l + "\n" for l in ls[:i] + ["X=1"] + ls[i:]),
+                    "".join(l + "\n" for l in ls[:i] + [ls[i].replace("=", "", 1)] + ls[i + 1:]), "".join(l + "\n" for l in ls[:i] + [ls[i].replace("=", "==", 1)] + ls[i + 1:])]
+            for m in muts:
+                cases.append(Case("sum.canon", [enc(m)], meta={"nt": True}))
     # incomplete entries and single setters: printing never depends on completeness
     for _ in range(n // 4):
         e = sgen.entry(rng)
